@@ -1771,8 +1771,10 @@ def gen_c19(rng, tier):
     if lp[0] == "thompson" and not ok_bz(lp[1]):
         base["lp"] = ("thompson", ("gt", 0.0))
     base["ops"] = [(("add", o[1], o[2] if ok_bz(o[2]) else ("gt", 0.0)) if o[0] == "add" and o[2] is not None else o) for o in base["ops"]]
+    if base.get("np") and base["np"][0] == "lsh" and rng.random() < 0.3:
+        npol = list(base["np"]); npol[1] = rng.randint(54, 62); base["np"] = tuple(npol)      # many hyper-planes (hash codes beyond 2^53)
     pos = 0 if rng.random() < 0.15 else rng.randint(0, len(base["ops"]))
-    how = rng.choice(["deepcopy", "pickle2", "pickle3", "pickle4", "pickle5", "fresh_interpreter"])
+    how = rng.choice(["deepcopy", "pickle2", "pickle3", "pickle4", "pickle5", "fresh_interpreter", "fresh_interpreter"])
     return {"base": base, "pos": pos, "how": how, "seed2": rng.randint(0, 10**9)}
 
 def c19_continuation(base, pos, rng, mab):
